@@ -93,6 +93,9 @@ func RegisterCore(p *Program) {
 		if _, ok := in.res.Covers[tag]; ok {
 			return nil
 		}
+		if _, seen := in.P.coverSeen.LoadOrStore(in.unit+"/"+tag, true); seen {
+			return nil
+		}
 		// PC is satisfiable by construction; fetch a witness
 		if in.sol.Check() == Sat {
 			in.res.Covers[tag] = in.modelValues()
